@@ -31,7 +31,8 @@ def reference_for(P, inp, files, tier):
 def planted_state(rng, image_words, sp):
     """(pc, areg, breg, oreg, {addr: value}, label)"""
     r = rng
-    w = r.randint(max(image_words + 8, 600), 6000)          # a free word well outside the image and below the stack
+    lo = max(image_words + 8, 600)
+    w = r.randint(lo, max(6000, lo + 4000))                  # a free word well outside the image and below the stack
     sub = r.randint(0, 3)
     pc = w * 4 + sub
     kind = r.choice(['svc', 'svc', 'stam', 'stai', 'br', 'ldam', 'ones', 'random'])
@@ -143,10 +144,10 @@ def judge_seed(res, exp_out, exp_rc, exp_used):
 def make_binary(rng, tier, scratch):
     """Returns (img path, input, exp_out, exp_rc, exp_used, source text, image_words, sp) or None if outside the domain."""
     if rng.random() < 0.3:
-        items, expected = asmgen.gen_tour(rng)
+        items, expected = asmgen.gen_tour(rng, huge=0.15)
         sp = os.path.join(scratch, 'p.S')
         src = asmgen.render(items)
-        open(sp, 'w').write(src)
+        open(sp, 'w', encoding='latin-1').write(src)
         img = os.path.join(scratch, 'p.bin')
         ok, r = toolchain.assemble(sp, img, scratch)
         if not ok:
@@ -165,7 +166,7 @@ def make_binary(rng, tier, scratch):
             return None            # file streams are C06's business; keep the power-on cases to the console
         src = xlang.p_prog(P)
         sp = os.path.join(scratch, 'p.x')
-        open(sp, 'w').write(src)
+        open(sp, 'w', encoding='latin-1').write(src)
         img = os.path.join(scratch, 'p.bin')
         ok, r = toolchain.compile_x(sp, img, scratch)
         if not ok:
@@ -204,7 +205,7 @@ def gen_case(rng, stats, extra):
             case = dict(kind='seed', image=image_hex, input=inp.hex(), seed=seed, exp_out=exp_out.hex(), exp_rc=exp_rc, exp_used=exp_used, source=src)
             nt = bool(exp_out) or exp_used > 0
             key = (image_hex, inp, seed)
-    stats.case(key=key, classes=[kind, 'verdict:' + ('fail' if why else 'ok')], nontrivial=nt,
+    stats.case(key=key, classes=[kind, 'verdict:' + ('fail' if why else 'ok')] + (['image>64KiB'] if words > 16384 else []), nontrivial=nt,
                sample={'kind': kind, 'source': src[:300], 'state': case.get('state', case.get('seed'))})
     if why:
         raise hyp.Failure(case, why)
